@@ -83,18 +83,28 @@ FloatToStr(q) ==
   IN IF q < 0 THEN <<45>> \o body ELSE body
 
 \* UTF-8 ----------------------------------------------------------------
-\* Runes(b): code points of a byte sequence (1-4 byte forms; generators only emit valid UTF-8)
+\* Runes(b): code points of a byte sequence, decoded like Go's utf8.DecodeRune: an ill-formed
+\* sequence (bad continuation byte, overlong form, surrogate, > U+10FFFF, truncation) yields U+FFFD
+\* and consumes one byte
+IsCont(x) == x >= 128 /\ x < 192
 RECURSIVE RunesFrom(_, _)
 RunesFrom(b, i) ==
   IF i > Len(b) THEN <<>>
-  ELSE LET c == b[i] IN
+  ELSE LET c == b[i]
+           n == Len(b)
+           b1 == IF i + 1 <= n THEN b[i+1] ELSE 0
+           b2 == IF i + 2 <= n THEN b[i+2] ELSE 0
+           b3 == IF i + 3 <= n THEN b[i+3] ELSE 0
+           lo2 == IF c = 224 THEN 160 ELSE IF c = 240 THEN 144 ELSE 128        \* second-byte range excludes overlong forms ...
+           hi2 == IF c = 237 THEN 159 ELSE IF c = 244 THEN 143 ELSE 191        \* ... surrogates and code points beyond U+10FFFF
+       IN
     IF c < 128 THEN <<c>> \o RunesFrom(b, i + 1)
-    ELSE IF c >= 192 /\ c < 224 /\ i + 1 <= Len(b)
-      THEN <<(c - 192) * 64 + (b[i+1] - 128)>> \o RunesFrom(b, i + 2)
-    ELSE IF c >= 224 /\ c < 240 /\ i + 2 <= Len(b)
-      THEN <<(c - 224) * 4096 + (b[i+1] - 128) * 64 + (b[i+2] - 128)>> \o RunesFrom(b, i + 3)
-    ELSE IF c >= 240 /\ i + 3 <= Len(b)
-      THEN <<(c - 240) * 262144 + (b[i+1] - 128) * 4096 + (b[i+2] - 128) * 64 + (b[i+3] - 128)>> \o RunesFrom(b, i + 4)
+    ELSE IF c >= 194 /\ c < 224 /\ IsCont(b1)
+      THEN <<(c - 192) * 64 + (b1 - 128)>> \o RunesFrom(b, i + 2)
+    ELSE IF c >= 224 /\ c < 240 /\ b1 >= lo2 /\ b1 <= hi2 /\ IsCont(b2)
+      THEN <<(c - 224) * 4096 + (b1 - 128) * 64 + (b2 - 128)>> \o RunesFrom(b, i + 3)
+    ELSE IF c >= 240 /\ c <= 244 /\ b1 >= lo2 /\ b1 <= hi2 /\ IsCont(b2) /\ IsCont(b3)
+      THEN <<(c - 240) * 262144 + (b1 - 128) * 4096 + (b2 - 128) * 64 + (b3 - 128)>> \o RunesFrom(b, i + 4)
     ELSE <<65533>> \o RunesFrom(b, i + 1)
 Runes(b) == RunesFrom(b, 1)
 
